@@ -251,6 +251,13 @@ func (p *Path) intrinsic(fn *ssa.Function, args []Value) (Value, bool) {
 			p.unsupported("verifMemberOf needs a slice of constant strings")
 		}
 		return memberOf(args[0].(*Term), words), true
+	case "specIsStdPath":
+		return stdPathSetTerm(args[0].(*Term)), true
+	case "specStdName":
+		return stdNameTerm(args[0].(*Term)), true
+	case "verifExactTables":
+		p.exactTables = args[0].(*Term).B
+		return nil, true
 	case "specIsGoReserved":
 		return memberOf(args[0].(*Term), goReservedIdents()), true
 	case "verifGlobalWrites":
